@@ -67,6 +67,7 @@ type mapIter struct {
 	Str     Term
 	ID      int
 	visRoot *Root
+	cntRoot *Root // ghost: number of keys this range loop has produced so far
 }
 
 type State struct {
